@@ -319,9 +319,26 @@ def run(ctx):
     for g, f in rejected:
         ctx.violation("C08/%s/design-rejected" % g.lower(), "the design of graph %s (all its variants) is refused at stage %s: %s" % (g, f[0], str(f[2])[:1500]),
                       {"graph": g, "stage": f[0], "detail": str(f[2])[:4000], "design": design_of(g, descs)})
+    # a refused design is tried again with its dynamic methods only (the methods fixing a view in the design are the usual
+    # reason for the refusal), so that what the remaining methods do on the wire is judged too
+    dyn, dynbins, dynidx = None, {}, {}
+    if rejected:
+        import copy
+        reduced = []
+        for g, _ in rejected:
+            d = copy.deepcopy(design_of(g, descs))
+            for svc in d["services"]:
+                svc["methods"] = [m for m in svc["methods"] if not m.get("resultView")]
+            dynidx[g] = len(reduced)
+            reduced.append(d)
+        dyn = hg.Pipeline(ctx, "gen-views-dynamic")
+        dyn.generate(reduced)
+        dynbins = dyn.build_runners(reduced)
+        ctx.notes.append("refused designs tried again with their dynamic methods only: %s" % {g: ("ok" if dynidx[g] in dynbins else str(dyn.failed.get(dynidx[g]))[:300]) for g in dynidx})
     ctx.cov["variants"] = len(descs)
-    if len(pl.failed) >= 3:
-        raise core.Infra("almost no views design compiles: %s" % pl.failed)
+    uncompilable = [i for i in pl.failed if graphs[i] not in [g for g, _ in rejected]]
+    if 2 * len(uncompilable) > len(graphs):
+        raise core.Infra("most views designs do not compile: %s" % pl.failed)
     # cases: the predictions of one case (several where the server has a choice) are judged together
     cases, order = {}, []
     for v in vectors:
@@ -330,16 +347,22 @@ def run(ctx):
             cases[k] = (v, [])
             order.append(k)
         cases[k][1].append(v["pred"])
-    scen, meta = {}, {}
+    scen, dynscen, meta = {}, {}, {}
     for n, k in enumerate(order):
         v, preds = cases[k]
-        gi = graphs.index(design_name(descs[vkey(v["cfg"])]))
-        if gi in pl.failed:
-            continue
+        dn = design_name(descs[vkey(v["cfg"])])
+        gi = graphs.index(dn)
         sid = "c%d" % n
+        if gi in pl.failed:
+            if dynidx.get(dn) in dynbins and (v["cfg"]["fixed"] == "-" or descs[vkey(v["cfg"])]["collFixed"] != "-"):
+                dynscen.setdefault(dynidx[dn], []).append(scenario(v, descs[vkey(v["cfg"])], sid))
+                meta[sid] = k
+            continue
         scen.setdefault(gi, []).append(scenario(v, descs[vkey(v["cfg"])], sid))
         meta[sid] = k
     events = pl.run_all(bins, scen)
+    if dynscen:
+        events.update(dyn.run_all(dynbins, dynscen))
     nontrivial = set()
     mismatches = []
     for sid, k in meta.items():
